@@ -477,8 +477,8 @@ pub fn run(ctx: &Ctx) -> CheckResult {
     for base in fault_bases {
         let first = base.meta.get("first").and_then(|x| x.as_u64()).unwrap_or(0) as usize;
         let seed = rng::mix(ctx.seed, &base.name, 17);
-        jobs.push(FaultJob { base: base.clone(), step: first + 1, space: FaultSpace { read_side: false, write_side: true, budgets: if quick { Budgets::BoundariesPlus(10) } else { Budgets::BoundariesPlus(200) }, seed }, noise: true, max_variants: if quick { 150 } else { 0 } });
-        jobs.push(FaultJob { base, step: first + 2, space: FaultSpace { read_side: true, write_side: true, budgets: Budgets::Boundaries, seed }, noise: true, max_variants: if quick { 160 } else { 0 } });
+        jobs.push(FaultJob { base: base.clone(), step: first + 1, space: FaultSpace { read_side: false, write_side: true, meta_side: true, budgets: if quick { Budgets::BoundariesPlus(10) } else { Budgets::BoundariesPlus(200) }, seed }, noise: true, max_variants: if quick { 150 } else { 0 } });
+        jobs.push(FaultJob { base, step: first + 2, space: FaultSpace { read_side: true, write_side: true, meta_side: true, budgets: Budgets::Boundaries, seed }, noise: true, max_variants: if quick { 160 } else { 0 } });
     }
     let camp = run_fault_campaign(ctx, &jobs);
     stats.merge(camp.stats);
